@@ -49,6 +49,48 @@ def items(tier):
             for k, b in enumerate(BODIES)]
 
 
+def _strip(body):
+    '''the host program of a data-region program: directives removed'''
+    out = []
+    for st in body:
+        st = dict(st)
+        for key in ("body", "then", "else"):
+            if key in st:
+                st[key] = _strip(st[key])
+        if st["k"] == "accdata":
+            out.extend(st["body"])
+        else:
+            out.append(st)
+    return out
+
+
+def _edit_add_read(r, via_copy):
+    '''edit history after the data region exists: add a read of an array the region
+    does not access yet to the first array assignment inside it - either in place or
+    after replacing the statement by its copy (as transformations such as InlineTrans
+    do); the directive must keep its clauses up to date'''
+    from psyclone.psyir.nodes import (ACCDataDirective, Assignment, ArrayReference,
+                                      BinaryOperation, Literal, Reference)
+    from psyclone.psyir.symbols import INTEGER_TYPE
+    from psyclone.psyir.transformations import TransformationError
+    d = r.walk(ACCDataDirective)[0]
+    used = {ref.symbol.name.lower() for ref in d.walk(Reference)}
+    new = [nm for nm in ("b", "c", "a") if nm not in used]
+    asgs = [a for a in d.walk(Assignment) if isinstance(a.lhs, ArrayReference)]
+    if not new or not asgs:
+        raise TransformationError("nothing to edit")
+    sym = r.symbol_table.lookup(new[0])
+    asg = asgs[0]
+    if via_copy:
+        cp = asg.copy()
+        asg.replace_with(cp)
+        asg = cp
+    rank = len(sym.datatype.shape)
+    extra = ArrayReference.create(sym, [Literal("1", INTEGER_TYPE) for _ in range(rank)])
+    old = asg.rhs
+    asg.rhs.replace_with(BinaryOperation.create(BinaryOperation.Operator.ADD, old.copy(), extra))
+
+
 def apps(pid):
     from psyclone.transformations import ACCDataTrans
     from psyclone.psyir.transformations import ACCKernelsTrans, TransformationError
@@ -70,6 +112,11 @@ def apps(pid):
     for lo in range(nst):
         for hi in range(lo + 1, min(nst, lo + 4) + 1):
             out.append((f"ACCDataTrans@{lo}-{hi}", lambda r, lo=lo, hi=hi: data(r, lo, hi)))
+            if hi - lo <= 2:
+                out.append((f"ACCDataTrans+edit@{lo}-{hi}",
+                            lambda r, lo=lo, hi=hi: (data(r, lo, hi), _edit_add_read(r, False))))
+                out.append((f"ACCDataTrans+copyedit@{lo}-{hi}",
+                            lambda r, lo=lo, hi=hi: (data(r, lo, hi), _edit_add_read(r, True))))
             out.append((f"ACCKernelsTrans+ACCDataTrans@{lo}-{hi}",
                         lambda r, lo=lo, hi=hi: kern_data(r, lo, hi)))
     return out
@@ -142,6 +189,9 @@ def run(tier):
     for r in results:
         if r["status"] == "accepted":
             r["case"]["cmpout"] = True
+            # the reference is the final program with the directives removed (edit
+            # histories change the statements after the region was created)
+            r["case"]["progs"][0] = {"body": _strip(r["case"]["progs"][1]["body"])}
     cov = sem.judge_family(out, results, MATCHERS)
     cov["rule"] = ("one case = (generated routine, statement range wrapped by ACCDataTrans, alone or "
                    "around an ACCKernelsTrans region); non-trivial = accepted and the host program is "
